@@ -21,6 +21,7 @@ import (
 	stream_srpc_server_lookup "github.com/aperturerobotics/bifrost/stream/srpc/server/lookup"
 	"github.com/aperturerobotics/controllerbus/controller"
 	"github.com/aperturerobotics/controllerbus/directive"
+	cdc "github.com/aperturerobotics/controllerbus/directive/controller"
 	"github.com/blang/semver/v4"
 	"github.com/sirupsen/logrus"
 
@@ -285,6 +286,11 @@ func TestC34(t *testing.T) {
 		}})
 	}
 
+	tookCase := map[[2]int]bool{}
+	insIndex := map[in]int{}
+	for i, s := range ins {
+		insIndex[s] = i
+	}
 	taken := map[string]int{}
 	declined := map[string]int{} // served by the configuration but not taken: recorded only
 	nconf := map[string]int{}
@@ -310,6 +316,7 @@ func TestC34(t *testing.T) {
 			case takes:
 				out = "takes"
 				taken[hc.handler]++
+				tookCase[[2]int{ci, insIndex[s]}] = true
 			}
 			acc.Case(hc.handler, key, !serves, out)
 			if takes && !serves {
@@ -345,6 +352,72 @@ func TestC34(t *testing.T) {
 			}
 		}
 	}
+	// ---- shared lookups: the bus folds equivalent HandleMountedStream lookups into
+	// one directive instance, whose resolvers (and resolved handler) are shared. Two
+	// lookups for different streams must therefore never be equivalent when some
+	// handler takes the first stream but does not serve the second: the second
+	// stream would be handed that handler. Every ordered pair of streams of the
+	// universe is compared; every pair reported equivalent is confirmed on a real
+	// controllerbus directive controller (same instance returned).
+	takers := map[in][]int{}
+	for ci := range cases {
+		for _, s := range ins {
+			if tookCase[[2]int{ci, insIndex[s]}] {
+				takers[s] = append(takers[s], ci)
+			}
+		}
+	}
+	dc := cdc.NewController(ctx, le)
+	pairsCompared, pairsFolded := 0, 0
+	for _, s1 := range ins {
+		d1 := link.NewHandleMountedStream(s1.pid, s1.local, s1.remote)
+		for _, s2 := range ins {
+			if s1 == s2 {
+				continue
+			}
+			pairsCompared++
+			d2 := link.NewHandleMountedStream(s2.pid, s2.local, s2.remote)
+			eq, ok := d1.(directive.DirectiveWithEquiv)
+			if !ok || !eq.IsEquivalent(d2) {
+				continue
+			}
+			// confirm through the bus
+			i1, r1, err1 := dc.AddDirective(d1, nil)
+			i2, r2, err2 := dc.AddDirective(d2, nil)
+			folded := err1 == nil && err2 == nil && i1 == i2
+			if r1 != nil {
+				r1.Release()
+			}
+			if r2 != nil {
+				r2.Release()
+			}
+			if !folded {
+				continue
+			}
+			pairsFolded++
+			for _, ci := range takers[s1] {
+				hc := &cases[ci]
+				if hc.serves(s2) {
+					continue
+				}
+				why := "several-fields"
+				switch {
+				case s1.local == s2.local && s1.remote == s2.remote:
+					why = "protocol"
+				case s1.pid == s2.pid && s1.remote == s2.remote:
+					why = "local-peer"
+				case s1.pid == s2.pid && s1.local == s2.local:
+					why = "remote-peer"
+				}
+				key := fmt.Sprintf("%s{%s}: lookup for stream(protocol=%q local=%s remote=%s) is folded into the running lookup for stream(protocol=%q local=%s remote=%s)", hc.handler, hc.conf, s2.pid, pn(s2.local), pn(s2.remote), s1.pid, pn(s1.local), pn(s1.remote))
+				acc.Case(hc.handler+"/shared-lookup", key, true, "folded")
+				run.Violation("takes-unconfigured-through-shared-lookup/"+hc.handler+"/"+why, key+": the handler resolved for the first stream is handed the second one, which its configuration does not serve (offending filter: "+why+")", map[string]any{"handler": hc.handler, "config": hc.conf, "first": fmt.Sprint(s1), "second": fmt.Sprint(s2)})
+				break
+			}
+		}
+	}
+	run.Cov["shared_lookup_pairs_compared"] = pairsCompared
+	run.Cov["shared_lookup_pairs_folded_by_the_bus"] = pairsFolded
 	// vacuity guard: every handler must have taken at least one stream, else the
 	// "only if" direction was never exercised for it.
 	for _, h := range []string{"echo", "forwarding", "relay", "accept", "srpc-server", "pubsub", "solicit"} {
